@@ -184,10 +184,13 @@ func genPage(t *rapid.T) *query.PageRequest {
 }
 
 // genHostileQuery draws (path, request bytes).
-func genHostileQuery(t *rapid.T) world.QueryStep {
+func genHostileQuery(t *rapid.T, live []string) world.QueryStep {
 	addr := func(l string) string { return genAddr(t, l).s }
 	hs := func(l string) string { return rapid.SampledFrom(hostileStrings).Draw(t, l) }
 	name := func(l string) string {
+		if len(live) > 0 && rapid.IntRange(0, 9).Draw(t, l+"-live") < 5 {
+			return rapid.SampledFrom(live).Draw(t, l+"-live-name")
+		}
 		if rapid.Bool().Draw(t, l+"-plain") {
 			return rapid.SampledFrom([]string{"a", "ab", "abc", "b"}).Draw(t, l)
 		}
@@ -239,7 +242,7 @@ func genHostileQuery(t *rapid.T) world.QueryStep {
 var CfgC17 = reg(&MachineCfg{
 	Prop: "C17",
 	Gens: []interface{}{"hostile_tx", 30, "hostile_query", 26, "aol", 10, "did", 8, "pnft", 10, "burn", 3, "authz", 3, "commit", 10},
-	Bias: map[string]int{"right-signers": 96, "exec": 10, "right-proof": 90},
+	Bias: map[string]int{"right-signers": 96, "exec": 10, "right-proof": 90, "adversarial-ids": 1},
 	Rule: "pipeline half of C17: hostile messages (boundary-directed fields, absent sub-messages, 255/256/70000-byte strings, NUL, invalid UTF-8, malformed addresses) are delivered as signed transactions, alone and inside authz exec, into a populated chain, hostile query requests (all 12 custom endpoints, extreme offsets and pagination, arbitrary request bytes, latest/historical/non-existing heights) are served, and further blocks are produced; oracle = no DeliverTx/Query returns baseapp's recovered-panic error and BeginBlock/EndBlock/Commit never panic; non-trivial = >=3 hostile txs and >=3 hostile queries that were decoded and reached the entry point",
 	NonTrivial: func(w *world.World) bool {
 		return lab(w, "c17 hostile tx delivered") >= 3 && lab(w, "c17 query reached handler") >= 3
@@ -255,8 +258,20 @@ var CfgC17 = reg(&MachineCfg{
 			return &world.Step{Kind: "tx", Tx: ts}
 		case "hostile_query":
 			var qs []world.QueryStep
+			live := map[string]bool{}
+			for id := range g.W.PNFT.Denoms {
+				live[id] = true
+			}
+			for k := range g.W.PNFT.Tokens {
+				live[k.ID] = true
+				live[k.Denom] = true
+			}
+			for _, tp := range g.W.AOL.Topics {
+				live[tp.Name] = true
+			}
+			names := sortedKeys(live)
 			for i := 0; i < 6; i++ {
-				qs = append(qs, genHostileQuery(g.T))
+				qs = append(qs, genHostileQuery(g.T, names))
 			}
 			return &world.Step{Kind: "queries", Queries: qs}
 		}
